@@ -634,6 +634,14 @@ func (c *Ctx) redisOneStrategy(r *redisRoles, rule string) {
 							okOrder = true
 						}
 					}
+					// the draining spelling of the same walk: rest = batch; for len(rest) > 0 { write(rest[0]); rest = rest[1:] }
+					if ia, ok := u.X.(*ssa.IndexAddr); ok && len(fn.Params) >= 3 {
+						if cur, isPhi := ia.X.(*ssa.Phi); isPhi && isDrainCursorZB(cur, fn.Params[2]) {
+							if k, isC := ir.ConstInt(ia.Index); isC && k == 0 {
+								okOrder = true
+							}
+						}
+					}
 				}
 			}
 		}
